@@ -109,11 +109,13 @@ func genC07(t *rapid.T, thorough bool) C07Case {
 type faultMode struct {
 	forever, withData bool
 	chunk             int
+	resume            bool // the stream carries on after the error was returned once
 }
 
 var faultModes = []faultMode{
-	{false, false, 0}, {true, false, 0}, {false, true, 0}, {true, true, 0},
-	{false, false, 1}, {true, true, 1}, {false, true, 7}, {true, false, 7},
+	{false, false, 0, false}, {true, false, 0, false}, {false, true, 0, false}, {true, true, 0, false},
+	{false, false, 1, false}, {true, true, 1, false}, {false, true, 7, false}, {true, false, 7, false},
+	{false, false, 0, true}, {false, true, 5, true},
 }
 
 func checkC07(c C07Case, o *Obs) error {
@@ -206,14 +208,14 @@ func checkC07(c C07Case, o *Obs) error {
 	for _, k := range offsets {
 		modes := faultModes
 		if len(text) > 700 {
-			modes = faultModes[:4]
+			modes = append(append([]faultMode{}, faultModes[:4]...), faultModes[8])
 		}
 		for mi, m := range modes {
 			runs++
 			ferr := fault.ErrKinds[(k+mi)%len(fault.ErrKinds)]
-			fr := &fault.FailAfter{Data: text, K: k, Forever: m.forever, WithData: m.withData, Chunk: m.chunk, Err: ferr}
+			fr := &fault.FailAfter{Data: text, K: k, Forever: m.forever, WithData: m.withData, Chunk: m.chunk, Err: ferr, Resume: m.resume}
 			items, over, p := collect(func(cb func(Item) bool) { codec.Reader(fr, cb) }, limit)
-			desc := fmt.Sprintf("%s: reader failing with %q after %d of %d bytes (forever=%v, error with data=%v, chunk=%d)", c.Format, ferr, k, len(text), m.forever, m.withData, m.chunk)
+			desc := fmt.Sprintf("%s: reader failing with %q after %d of %d bytes (forever=%v, error with data=%v, chunk=%d, stream carries on afterwards=%v)", c.Format, ferr, k, len(text), m.forever, m.withData, m.chunk, m.resume)
 			if p != nil {
 				return fmt.Errorf("%s: panic %v (input %s)", desc, p, gen.Abbrev(text))
 			}
